@@ -91,6 +91,9 @@ func VerifH_C19_DecodeTotal() {
 	// (incl. list entries and list keys) receives every value shape within the budget
 	var doc, v interface{}
 	ctx := vrt.Choice("context", 9)
+	if only := vrt.Param("context", -1); only >= 0 {
+		vrt.Assume(ctx == only) // thorough tier: longer strings in one context at a time
+	}
 	if ctx != 8 {
 		v = c19Value("V")
 	}
